@@ -63,14 +63,15 @@ func regenSpec(ops, defs uint) []byte {
 }
 
 type regenStep struct {
-	Kind  string `json:"kind"` // server | client | model | edit-configure | add-file | edit-generated
+	Kind string `json:"kind"` // server | client | model | edit-configure | add-file | edit-generated
 	// per-history options of the server runs
-	Config bool `json:"layout_config_file,omitempty"`     // -C layout.yml (the default layout in the documented format)
-	Impl   bool `json:"implementation_package,omitempty"` // --implementation-package x/impl
-	Ops   uint   `json:"ops,omitempty"`
-	Defs  uint   `json:"defs,omitempty"`
-	Regen bool   `json:"regenerate_configure,omitempty"`
-	Path  string `json:"path,omitempty"`
+	Config  bool   `json:"layout_config_file,omitempty"`     // -C layout.yml (the default layout in the documented format)
+	Impl    bool   `json:"implementation_package,omitempty"` // --implementation-package x/impl
+	Contrib bool   `json:"template_stratoscale,omitempty"`   // --template stratoscale (a contributed template set that regenerates its configure file)
+	Ops     uint   `json:"ops,omitempty"`
+	Defs    uint   `json:"defs,omitempty"`
+	Regen   bool   `json:"regenerate_configure,omitempty"`
+	Path    string `json:"path,omitempty"`
 }
 
 func genArgs(st regenStep, specFile string) []string {
@@ -85,6 +86,9 @@ func genArgs(st regenStep, specFile string) []string {
 		}
 		if st.Impl {
 			a = append(a, "--implementation-package", "x/impl")
+		}
+		if st.Contrib {
+			a = append(a, "--template", "stratoscale")
 		}
 		return a
 	case "client":
@@ -152,6 +156,7 @@ func CheckC11(run *ev.Run) {
 		userFiles := map[string]string{}
 		ops, defs := uint(r.Intn(8)), uint(r.Intn(4))
 		useConfig, useImpl := h%4 == 1, h%4 == 3
+		useContrib := h%4 == 2 && h%8 == 2 // one history in eight runs the contributed stratoscale templates
 		fail := func(key, what string, extra map[string]interface{}) {
 			m := map[string]interface{}{"history": hist, "how": "run the listed steps with `swagger generate ... -t target` in one scratch module (spec from regenSpec(ops, defs)); see harness/internal/genlab/check11.go"}
 			for k, v := range extra {
@@ -170,7 +175,7 @@ func CheckC11(run *ev.Run) {
 				if r.Chance(1, 3) {
 					defs = uint(r.Intn(4))
 				}
-				step = regenStep{Kind: "server", Ops: ops, Defs: defs, Regen: s > 0 && r.Chance(1, 4), Config: useConfig, Impl: useImpl}
+				step = regenStep{Kind: "server", Ops: ops, Defs: defs, Regen: s > 0 && r.Chance(1, 4), Config: useConfig, Impl: useImpl, Contrib: useContrib}
 			case k < 5:
 				step = regenStep{Kind: "client", Ops: ops, Defs: defs}
 			case k < 6:
@@ -203,7 +208,7 @@ func CheckC11(run *ev.Run) {
 				var ws [][]interface{}
 				for _, p := range SortedKeys(ft) {
 					// a layout given with -C carries its own skip_exists flag, which the command-line switch does not override
-					skip := isConfigure(p) && (!step.Regen || step.Config) && step.Kind == "server" && !step.Impl
+					skip := isConfigure(p) && (!step.Regen || step.Config) && step.Kind == "server" && !step.Impl && !step.Contrib
 					ws = append(ws, []interface{}{p, ft[p], skip})
 				}
 				modelOp = map[string]interface{}{"run": ws}
@@ -221,7 +226,7 @@ func CheckC11(run *ev.Run) {
 				}
 				for p, hsh := range ft {
 					_, existed := before[p]
-					if isConfigure(p) && existed && !(step.Regen && !step.Config && step.Kind == "server") {
+					if isConfigure(p) && existed && !((step.Regen || step.Contrib) && !step.Config && step.Kind == "server") {
 						if after[p] != before[p] {
 							fail("configure-rewritten", "the configure file was rewritten although regeneration was not requested", map[string]interface{}{"file": p})
 						}
